@@ -104,6 +104,7 @@ type CheckSpec struct {
 	Worker     func(w *WorkerCtx) // runs in the worker process
 	Workers    int                // 0 = all cores
 	VaryCPUs   bool               // run workers under different CPU affinities / GOMAXPROCS (F11)
+	DeathIsViolation bool         // C30: a worker process that dies (e.g. Go stack overflow) is the violation, not a harness error
 }
 
 type WorkerCtx struct {
@@ -155,6 +156,13 @@ func init() {
 	registerPlanCheck("C26", "exploration", planRule("contract lifecycle"), 50*time.Second, 12*time.Minute, realStub)
 	registerPlanCheck("C25", "exploration", planRule("capability (issue/retarget/tag/delete, derived capabilities, publish/unpublish/get/borrow, inbox)"), 50*time.Second, 12*time.Minute, realStub)
 	checks["C26"].Worker = c26Worker
+	checks["C36"] = &CheckSpec{Prop: "C36", Level: "exploration", QuickBudget: 60 * time.Second, ThoroughBudget: 12 * time.Minute, Workers: 8,
+		Assumptions: []string{realStub, "mode R does not replay a schedule (rr is unavailable): a race report is a happens-before fact and therefore never a false alarm; the replay file carries job and report and replay re-runs the job up to 10 times"},
+		Rule:   "jobs drawn from the seed: 2..16 worker goroutines x 2..4 generated scripts each (10 templates: entitlement-mapped member access, casts and run-time types, Account built-ins, attachments, resources and events, ill-typed and failing programs) over a shared program cache; 1/3 of the jobs run in mode S (seeded scheduler, one worker released per runtime.Interface callback, executed twice to confirm the schedule is a function of the seed), 2/3 in mode R (fresh -race process with cold caches, GOMAXPROCS 2/4/16); oracle: every script behaves as when run alone (after the concurrent phase), no race report, no crash; distinct by (mode, engine, workers, seed)",
+		Worker: c36Worker}
+	checks["C30"] = &CheckSpec{Prop: "C30", Level: "exploration", QuickBudget: 60 * time.Second, ThoroughBudget: 10 * time.Minute, Assumptions: []string{realStub, "the metering limits are realised as gauge budgets (the n-th metering call and every later one fails), the call-depth limit through Config.StackDepthLimit"}, DeathIsViolation: true,
+		Rule:   "runaway corpus (11 unbounded loops / growth programs, 9 recursion shapes: functions, mutual, struct / resource initialisers, default functions, conditions, attachments, script functions) x engine x (computation | memory budget drawn around 0, 40, 700, 9e3, 1.2e5 metering calls) and x configured call-depth limit (default, 50, 300) x recursion depth around the limit; each trial in a worker process with a 180 s watchdog; a hang or a dead worker process is reported as the violation; distinct by (program, engine, budget, depth, limit)",
+		Worker: c30Worker}
 	checks["C27"] = &CheckSpec{Prop: "C27", Level: "exploration", QuickBudget: 60 * time.Second, ThoroughBudget: 10 * time.Minute, Assumptions: []string{realStub},
 		Rule:   "every mutation of a fixed grammar of 45 contract-update mutations (field add/remove/retype/reorder/rename, access and let changes, conformance add/remove, kind change, nested declaration add/remove with and without #removedType, enum case add/remove/reorder/rename, raw type change, interface changes) x engine (interp, vm) x update|tryUpdate x restart|warm process; history: deploy v1, store struct / array / dictionary / resource / enum / interface-typed instances in two accounts, update, (restart), probe script generated from the new declaration; a trial is non-trivial always; distinct by (mutation, engine, via, restart)",
 		Worker: c27Worker}
@@ -413,9 +421,14 @@ func cmdCheck(args []string) int {
 			}()
 			sc := bufio.NewScanner(stdout)
 			sc.Buffer(make([]byte, 1<<20), 1<<28)
+			var lastBegin json.RawMessage
 			for sc.Scan() {
 				var r WorkResult
 				if err := json.Unmarshal(sc.Bytes(), &r); err != nil {
+					continue
+				}
+				if r.Kind == "begin" {
+					lastBegin = r.Sample
 					continue
 				}
 				mu.Lock()
@@ -424,6 +437,15 @@ func cmdCheck(args []string) int {
 			}
 			err := cmd.Wait()
 			close(done)
+			if err != nil && spec.DeathIsViolation && lastBegin != nil {
+				v := Violation{Property: spec.Prop, Oracle: "process-survives", Key: "process-died", Detail: fmt.Sprintf("the worker process died (%v) while executing trial %s: %s", err, string(lastBegin), clip(lastLines(stderr.String(), 12), 1500))}
+				rf := &ReplayFile{Property: spec.Prop, Oracle: v.Oracle, VerifSeed: seed, Tier: *tier, Kind: "c30", Custom: lastBegin, Violation: &v}
+				path := WriteReplay(filepath.Join(verifDir(), "replay"), rf, fmt.Sprintf("died-worker%d", i))
+				mu.Lock()
+				results = append(results, WorkResult{Kind: "item", Violations: []Violation{v}, Replay: path, NonTrivial: true, Shape: "died"})
+				mu.Unlock()
+				return
+			}
 			if err != nil {
 				mu.Lock()
 				harnessErr = fmt.Sprintf("worker %d died: %v\n%s", i, err, clip(stderr.String(), 4000))
@@ -590,6 +612,14 @@ func aggregate(spec *CheckSpec, tier string, seed int64, results []WorkResult, w
 }
 
 func violationEngine(v Violation) string { return v.Engine }
+
+func lastLines(s string, n int) string {
+	ls := strings.Split(strings.TrimSpace(s), "\n")
+	if len(ls) > n {
+		ls = ls[:n]
+	}
+	return strings.Join(ls, "\n")
+}
 
 func cmdWorker(args []string) int {
 	fs := flag.NewFlagSet("worker", flag.ExitOnError)
